@@ -182,8 +182,116 @@ def heartbeat_idle():
         os.ftruncate(fd, 0)
 
 
+# ----------------------------------------------------------------------------- spellings of one content
+# btclib.alias: Octets = String = bytes | str | bytearray | memoryview, BinaryData = BytesIO | Octets.  The same
+# content may arrive in every one of those spellings; for an Octets-like parameter a str is hex, for a
+# String-like one it is text.
+_HEX_KINDS = ("Octets", "BinaryData", "Integer", "PrvKey", "PubKey", "Key", "BIP340PubKey", "bytes|str|bytearray|memoryview",
+              "_io.BytesIO|bytes|str|bytearray|memoryview", "bytes|str|bytearray|memoryview|int")
+_TEXT_KINDS = ("String", "BIP32Key")
+
+
+def param_kind(ann):
+    """'hex' | 'text' | None, and whether a BytesIO is admitted, for a parameter annotation"""
+    a = (ann if isinstance(ann, str) else getattr(ann, "__name__", str(ann))).replace(" ", "").replace("'", "")
+    parts = a.split("|")
+    io_ok = "BinaryData" in parts or "_io.BytesIO" in parts or "BytesIO" in parts
+    if any(p in _TEXT_KINDS for p in parts):
+        return "text", False
+    if any(p in _HEX_KINDS for p in parts) or a in _HEX_KINDS:
+        return "hex", io_ok
+    if {"bytes", "str", "bytearray", "memoryview"} <= set(parts):
+        return "either", io_ok      # the bare union: Octets and String are the same type, the content decides
+    return None, False
+
+
+def spellings(spec, kind, io_ok):
+    """[(name, spec)] every accepted spelling of the content of `spec`; [] when the content has one spelling only"""
+    content, was = None, None
+    if isinstance(spec, dict):
+        for k in ("b", "ba", "mv", "mvw", "io"):
+            if k in spec and len(spec) == 1:
+                content, was = bytes.fromhex(spec[k]), k
+    elif isinstance(spec, str):
+        was = "str"
+        if kind == "either":
+            try:
+                kind = "hex" if bytes.fromhex(spec).hex() == spec.lower() and spec else "text"
+            except ValueError:
+                kind = "text"
+        if kind == "hex":
+            try:
+                content = bytes.fromhex(spec)
+            except ValueError:
+                return []
+            if content.hex() != spec.lower():      # spaces etc.: the str spelling is not the canonical one
+                return []
+        else:
+            try:
+                content = spec.encode("ascii")
+            except UnicodeEncodeError:
+                return []
+    if content is None:
+        return []
+    out = [("bytes", {"b": content.hex()}), ("bytearray", {"ba": content.hex()}), ("memoryview", {"mv": content.hex()}),
+           ("memoryview-writable", {"mvw": content.hex()})]
+    if kind == "hex":
+        out.append(("hex-str", content.hex()))
+    elif kind == "either":
+        pass
+    else:
+        try:
+            out.append(("str", content.decode("ascii")))
+        except UnicodeDecodeError:
+            pass
+    if io_ok:
+        out.append(("BytesIO", {"io": content.hex()}))
+    return out
+
+
+def _norm(v, depth=0):
+    if depth > 6:
+        return v
+    if isinstance(v, (bytes, bytearray, memoryview)):
+        return bytes(v)
+    if isinstance(v, (list, tuple)):
+        return tuple(_norm(x, depth + 1) for x in v)
+    if isinstance(v, BytesIO):
+        return ("BytesIO", v.getvalue())
+    return v
+
+
+def _same_value(a, b):
+    try:
+        a, b = _norm(a), _norm(b)
+        if a == b:
+            return True
+        if hasattr(a, "serialize") and type(a) is type(b):
+            return _ser(a) == _ser(b)
+        if type(a).__eq__ is object.__eq__:
+            return True       # identity-only equality (generators, engines): nothing to compare
+        return False
+    except Exception:  # noqa: BLE001 - a comparison that cannot be made decides nothing
+        return True
+
+
+_SIG_CACHE = {}
+
+
+def _sig_of(ep, f):
+    if ep not in _SIG_CACHE:
+        try:
+            _SIG_CACHE[ep] = inspect.signature(f)
+        except (TypeError, ValueError):
+            _SIG_CACHE[ep] = None
+    return _SIG_CACHE[ep]
+
+
 class Recorder:
     """what one task observed; merged into ctx by the parent"""
+
+    spell_rng = None      # a PRNG: a fraction of the calls is repeated in every spelling of one buffer argument
+    spell_rate = 0.0
 
     def __init__(self):
         self.counts = {}      # (stream, ep, outcome) -> n
@@ -285,7 +393,71 @@ def exc_name(outcome):
 
 def call_spec(R: Recorder, stream: str, ep: str, args, kwargs=None, *, fn=None, bool_ret=False,
               consumers=True, stream_check=True, limit=WATCHDOG_S):
-    """Drive one entry point with one argument spec; record the outcome; -> (outcome, value)."""
+    """Drive one entry point with one argument spec; record the outcome; -> (outcome, value).
+    A fraction of the calls is then repeated with one buffer argument in every spelling btclib.alias admits."""
+    kwargs = kwargs or {}
+    res = _call_spec(R, stream, ep, args, kwargs, fn=fn, bool_ret=bool_ret, consumers=consumers,
+                     stream_check=stream_check, limit=limit)
+    rng = R.spell_rng
+    if rng is not None and res[0] not in ("skipped", "hang") and rng.random() < R.spell_rate:
+        _respell(R, rng, ep, list(args), kwargs, fn, bool_ret, limit)
+    return res
+
+
+def _respell(R, rng, ep, args, kwargs, fn, bool_ret, limit):
+    try:
+        f = fn or resolve(ep)
+    except (ImportError, AttributeError):
+        return
+    sig = _sig_of(ep, f)
+    if sig is None:
+        return
+    params = [p for p in sig.parameters.values() if p.kind in (p.POSITIONAL_ONLY, p.POSITIONAL_OR_KEYWORD)]
+    cands = []
+    for i, a in enumerate(args):
+        if i < len(params):
+            kind, io_ok = param_kind(params[i].annotation)
+            if kind:
+                sp = spellings(a, kind, io_ok)
+                if sp:
+                    cands.append((("pos", i), sp))
+    for k, v in kwargs.items():
+        p = sig.parameters.get(k)
+        if p is not None:
+            kind, io_ok = param_kind(p.annotation)
+            if kind:
+                sp = spellings(v, kind, io_ok)
+                if sp:
+                    cands.append((("kw", k), sp))
+    if not cands:
+        return
+    (where, key), sp = rng.choice(cands)
+    base = None
+    for name, spec in sp:
+        a2, k2 = list(args), dict(kwargs)
+        if where == "pos":
+            a2[key] = spec
+        else:
+            k2[key] = spec
+        outcome, value = _call_spec(R, "spell", ep, a2, k2, fn=fn, bool_ret=bool_ret, consumers=False,
+                                    stream_check=False, limit=limit)
+        if outcome in ("skipped", "hang") or outcome.startswith("foreign"):
+            continue
+        if name == "BytesIO":
+            continue          # a caller's stream is not held to "no trailing bytes": only the class oracle applies
+        if base is None:
+            base = (name, outcome, value)
+            continue
+        same = (outcome == "ok") == (base[1] == "ok") and (outcome != "ok" or _same_value(base[2], value))
+        if not same:
+            w = {"ep": ep, "args": a2, "kwargs": k2}
+            R.fail(f"{ep}:spelling-differs", "spell",
+                   f"{ep} answers {base[1]} for the {base[0]} spelling and {outcome} for the {name} spelling of the same "
+                   f"content ({'different values' if outcome == 'ok' == base[1] else 'accepted vs refused'}) on {G.short(w)}", w)
+
+
+def _call_spec(R: Recorder, stream: str, ep: str, args, kwargs=None, *, fn=None, bool_ret=False,
+               consumers=True, stream_check=True, limit=WATCHDOG_S):
     kwargs = kwargs or {}
     if R.hung.get(ep, 0) >= 2:
         return "skipped", None
